@@ -151,6 +151,50 @@ def r05_1(run, model):
                     run.ob("R05.1", key, False, site(NR, c["sp"]), f"{cname}: environment argument not recognised")
 
 
+def r05_16(run, model):
+    run.rule("R05.16", "the typer does not decide again what a resolved name denotes: in every function of typer/check.rs that tells "
+                       "`NameRef::Local` from the other resolutions, each look-up in the table of top-level functions (get_type_of_function and "
+                       "the helpers that reach it) sits in a match arm for `NameRef::Def`, `Builtin` or `Unresolved` - a look-up in front of the "
+                       "match, or in an arm that also matches `Local`, lets a function of the same name win over the local binder")
+    CHECK = "crates/compiler/src/typer/check.rs"
+    fns = [g for g in model.fns(CHECK) if g.body is not None]
+    look = {"get_type_of_function"}
+    grew = True
+    while grew:
+        grew = False
+        for g in fns:
+            if g.impl is None and g.name not in look and any(S.callee_name(c) in look for c in S.calls(g.body)):
+                look.add(g.name)
+                grew = True
+    n = 0
+    for f0 in fns:
+        if f0.name in look:
+            continue
+        f = model.inlined_fn(f0)
+        txt = S.norm_ws(run.facts.text(CHECK, f0.body["sp"]))
+        if "NameRef::Local" not in txt:
+            continue
+        par = S.Parents(f.body)
+        k = 0
+        for c in S.walk(f.body):
+            if c["k"] not in ("Call", "MethodCall") or S.callee_name(c) not in look or c.get("inlined_call"):
+                continue
+            n += 1
+            k += 1
+            arm = None
+            for a in par.ancestors(c):
+                if a["k"] == "Arm" and "NameRef::" in S.norm_ws(run.facts.text(CHECK, a["pat"]["sp"])):
+                    arm = a
+                    break
+            pt = S.norm_ws(run.facts.text(CHECK, arm["pat"]["sp"])) if arm is not None else ""
+            ok = arm is not None and "NameRef::Local" not in pt
+            run.ob("R05.16", f"{f0.name}|function-table look-up #{k} belongs to a non-local resolution", ok, site(CHECK, c["sp"]),
+                   (f"inside the arm `{pt[:60]}`" if arm is not None else "outside every arm that names a resolution: it is reached for `NameRef::Local` too"),
+                   witness="fn run(string_println: (string) -> unit) { string_println(\"x\") }: the call goes to the builtin, not to the parameter; "
+                           "fn twice(f: (int32) -> int32) with a top-level `fn f(s: string)` is rejected for a type mismatch")
+    run.floor("function-table look-ups in the functions that know NameRef::Local", n, 3)
+
+
 def r05_2(run, model):
     run.rule("R05.2", "name lookup is newest-first: the resolver environment appends binders and searches from the back, and a "
                       "single-segment path consults locals before package definitions and builtins")
@@ -837,6 +881,11 @@ def run(run, model):
     run.try_rule(r05_13, model)
     run.try_rule(r05_14, model)
     run.try_rule(r05_15, model)
+    run.try_rule(r05_16, model)
+    # a use inside a closure keeps its binder through closure conversion only if the capture walk reaches it (shared with C08 R08.1)
+    from rules import c08 as _c08
+    run.rule("R05.17", "a use inside a closure body still refers to its binder after closure conversion: the capture walk of lift.rs visits every sub-term (shared with C08 R08.1)")
+    run.try_rule(_c08.r08_1, model)
     run.try_rule(r05_5, model)
     run.try_rule(r05_1, model)
     run.try_rule(r05_2, model)
